@@ -352,5 +352,5 @@ func canonLists(doc string) string {
 }
 
 func TestC38(t *testing.T) {
-	lib.Check(t, spec, lib.Scale(600, 30000), genCase, run)
+	lib.Check(t, spec, lib.Scale(600, 300000), genCase, run)
 }
